@@ -11,9 +11,10 @@ import (
 
 func main() {
 	cli.Main(map[string]cli.RunFn{
-		"extract": func(out string, _ int64, _ string) error { return extract.Run(cli.Repo, out) },
-		"time":    engtime.Run,
-		"hash":    engcodec.RunHash,
-		"codec":   engcodec.RunCodec,
+		"extract":  func(out string, _ int64, _ string) error { return extract.Run(cli.Repo, out) },
+		"time":     engtime.Run,
+		"hash":     engcodec.RunHash,
+		"codec":    engcodec.RunCodec,
+		"infojson": engcodec.RunInfoJSON,
 	})
 }
